@@ -3,7 +3,7 @@ import re
 CONFIG = dict(
     bin="c05",
     drv="drv_c05",
-    lean_modules=["MahfModel.Props.C05"],
+    lean_modules=["MahfModel.Props.C05", "MahfModel.Props.C05Mem"],
     namespaces=["MahfModel.Props.C05"],
     shrink_lists=["ops"],
     level="proof",
@@ -12,34 +12,62 @@ CONFIG = dict(
           "collection helpers of population.rs on REAL individuals of Sphere / OneMax / TSP instances (pool of 6 distinct "
           "solutions; objective table recomputed with raw_f); 3 of 4 histories use the raw writers only with f(sol), 1 of 4 also "
           "with foreign values (taint-tracked); the histories include clone_from on single individuals, Vec::clone_from and "
-          "clone_from_slice with all four evaluated/unevaluated target/source combinations; (c) component level: every "
-          "solution-modifying component that can run on a prepared state (Saturation, Toroidal, Mirror, "
-          "CompleteOneTailedNormalCorrection, Normal/Uniform/PartialRandomSpread/BitFlip/PartialRandomBitstring/Swap/Scramble/"
-          "Inversion/Insertion/Translocation mutations, ParticleVelocitiesUpdate with prepared velocities (tiny < EPSILON, zero, "
-          "ordinary, mixed; positions near 0 / ordinary / outside), BlackHoleParticlesUpdate, EventHorizon, DEMutation, DE "
-          "crossovers, Arithmetic/Uniform/NPoint/Cycle crossover) executed on populations of EVALUATED individuals, dims 1..4, "
-          "every inside/outside mask of the coordinates, the masked individual first/middle/last: afterwards every still-evaluated "
-          "individual must carry raw_f(solution) bit-exactly (O) and the evaluated flags must match the component's kind (K); "
-          "(b) run level: all 21 templates x 3 parameter points x 4 instances x seeds x "
-          "{seq,par}: after EVERY step every individual reachable from the state (all populations, best-so-far, elitist "
-          "archive, PSO personal/global bests, CRO molecule bests) is re-evaluated with raw_f and compared bit-exactly; each "
-          "leaf component's effect on the evaluated flags is compared with its model kind. Non-trivial: a history with a "
-          "solution_mut / as_solutions_mut and an evaluation, or a template run; distinct = distinct canonical input."),
+          "clone_from_slice with all four evaluated/unevaluated target/source combinations; best_individual is compared "
+          "tie-agnostically (any member with a minimal value is a legal answer). "
+          "(c) component level: the real component is initialised and executed on a prepared state; the harness sends a snapshot "
+          "of EVERYTHING the state holds before and after (all populations, best-so-far, elitist archive, PSO personal/global "
+          "bests, CRO molecule bests; solutions interned per case, objective table recomputed with raw_f) and the Lean driver "
+          "decides O = every cached value equals f(solution) on the after-state and K = the component's model: exact models "
+          "(memStep) for PopulationEvaluator, BestIndividualUpdate, ElitistArchiveUpdate / IntoPopulation, DuplicatePopulation, "
+          "PersonalBestParticlesInit / Update, GlobalBestParticleUpdate, ChemicalReactionInit and the four CRO reactions "
+          "(nondeterministic over the Boolean energy witness; memories compared by objective value, so which of several equally "
+          "good individuals is kept does not matter), the kind relation leafCheck for all others (boundary repairs, all mutations, "
+          "ParticleVelocitiesUpdate with prepared velocities tiny < EPSILON / zero / ordinary / mixed, BlackHoleParticlesUpdate, "
+          "EventHorizon, DE mutation y = 1 and y = 2 with equal difference pairs, DE crossovers, Arithmetic / Uniform / NPoint / "
+          "Cycle crossover with insert_both and insert_single, pc 0 / 0.5 / 1, seven selections, six replacements, "
+          "FireflyPositionsUpdate): a member of a mutated population must be unevaluated or the very same individual as before "
+          "(a correct fast path that leaves an untouched individual evaluated is legal), nothing but an evaluating component may "
+          "create a (solution, objective) pair. Inputs: dims 1..4, every inside/outside mask of the coordinates with the masked "
+          "individual first/middle/last, population sizes 0 / 1 / 2 / 3 / 5 / 6 (sizes 1 and 2 repeated 8 / 4 times), populations "
+          "with unevaluated members, with mirror images (equal objective, different solution), with duplicates, one to three "
+          "populations on the stack, memories seeded from a different population, CRO reactions with missing / surplus / foreign "
+          "reactants and products. "
+          "(b) run level: all 21 templates x 4 parameter points x 4 instances x seeds x {seq,par} for 6 (10) iterations plus "
+          "one run of 40 (four of 120) iterations per template and parameter point: after EVERY step every individual reachable "
+          "from the state is re-evaluated with raw_f and compared bit-exactly (O); for up to 40 distinct leaf transitions per run "
+          "the before/after snapshots go to the driver (K as above, O again in Lean). Non-trivial: a history with a solution_mut / "
+          "as_solutions_mut and an evaluation, a component case, or a template run; distinct = distinct canonical input."),
     nontrivial=lambda inp: inp.startswith("(run") or inp.startswith("(comp") or (("solmut" in inp) and ("(eval" in inp or "(new " in inp)),
     trusted_base=[
-        "solutions are abstract ids in the model; the harness maps real encodings to pool ids by equality",
-        "raw_f (harness-side recomputation of the objective) is the reference for 'belongs to its solution'",
-        "step observer hook (cfg mahf_verif); only state types that are public are audited (Populations, BestIndividual, "
-        "ElitistArchive, pso::BestParticles/BestParticle, cro::ChemicalReaction)"],
-    assumptions=["SplitMix64-seeded generators", "custom user components are outside the quantifier; a component's kind table entry is hand-written (its agreement with the code is K)"],
-    level_text=("Lean 4 theorems: Valid f i := cached objective (if any) = f sol; solution_mut_unevaluates, clone_from_is_assignment, "
-                "as_solutions_mut_unevaluates_all, individual_api_preserves_valid, raw_writers_valid_iff, "
+        "solutions are abstract ids in the model; the harness interns real encodings by == (the equality Individual::eq, contains and "
+        "position use) - per pool for API histories, per case for snapshots",
+        "raw_f (harness-side recomputation of the objective) is the reference for 'belongs to its solution'; the comparison itself "
+        "(allValidB) is done by the Lean driver on the snapshot, and by the harness on every step of every run",
+        "step observer hook (cfg mahf_verif); only state types that are public are snapshotted (Populations, BestIndividual, "
+        "ElitistArchive, pso::BestParticles/BestParticle with the Global identifier, cro::ChemicalReaction)"],
+    assumptions=["SplitMix64-seeded generators",
+                 "custom user components are outside the quantifier; which model (exact memStep op or kind) belongs to a component name "
+                 "is a hand-written table in Model/PopMachineC05.lean (its agreement with the code is K); an unknown name gets kind "
+                 "'any' = only 'no new (solution, objective) pair'",
+                 "the energy arithmetic of the CRO reactions is a Boolean witness here (modelled in C20)"],
+    level_text=("Lean 4 theorems: Valid f i := cached objective (if any) = f sol. Individual level: solution_mut_unevaluates, "
+                "clone_from_is_assignment, as_solutions_mut_unevaluates_all, individual_api_preserves_valid, raw_writers_valid_iff, "
                 "only_solution_mut_changes_sol, api_preserves_valid / api_outputs_valid / inplace_ops_keep_solutions for every API "
-                "operation, api_run_preserves_valid for every history (induction), step_preserves_valid for every modelled "
-                "component step (initialisers, copies, as_solutions_mut users, recombination, self-evaluating move, evaluator, best "
-                "update, archive update/re-insertion, replacement) and run_preserves_valid for every sequence. Tied to /repo by "
-                "running the real API on real individuals (K) and by the per-step audit of all template runs (O)."),
-    level_note=("Trusted: Lean kernel; harness + driver printing; raw_f as reference. The theorem is about the model; the per-step audit "
-                "covers the shipped templates on the shared instances only. Components are modelled by their effect on solutions and "
-                "evaluated flags (kind table), not by their numeric behaviour."),
+                "operation, api_run_preserves_valid for every history (induction). Component level: step_preserves_valid / "
+                "run_preserves_valid (initialisers, copies, as_solutions_mut users, recombination, self-evaluating move, evaluator, "
+                "best update, archive update / re-insertion, replacement), partial_mutation_spec (solution_mut on any subset: touched "
+                "members unevaluated, the others identical), recombination_exec_unevaluated (the shared executor incl. unchanged "
+                "parents and the odd remainder), de_mutation_unevaluated, selection_replacement_exact, memories_fed_by_copies, "
+                "memstep_preserves_valid / memrun_preserves_valid over the machine WITH swarm and molecule memories (PSO personal / "
+                "global best components, ChemicalReactionInit, the four CRO reactions for every outcome of their energy balance, "
+                "also for runs that stop with an Err). Tie: all_valid_b_iff (the driver's O predicate is AllValidX), "
+                "no_new_values_sound and leaf_check_sound (the driver's K relation on a real transition implies validity of the real "
+                "after-state), uneval_top_shape. Tied to /repo by running the real API on real individuals, real components on "
+                "prepared states and the per-step audit of all template runs."),
+    level_note=("Trusted: Lean kernel; harness + driver printing; raw_f as reference; interning of solutions by ==. The theorems are "
+                "about the model; exact agreement model = code is checked (K) for the API and for the memory / evaluator / archive / CRO "
+                "components, the other components are checked against a relation (kind), not an exact model, and not for their numeric "
+                "behaviour. The per-step audit covers the shipped templates on the shared instances only; the elitist archive occurs "
+                "in no shipped template and is tied at component level only. Nested scopes: the audit sees the innermost "
+                "BestIndividual while inside a scope."),
 )
